@@ -20,8 +20,8 @@ RULE = (
     "strategies), (c) structured mutants of (a) and (b): any top-level CVAL replaced by any int32 (edge-biased around the declared range; enum "
     "controllers only by members so the file stays loadable), option-chunk bytes replaced by arbitrary bytes, SLNK/SLnK entries replaced by "
     "indices of existing modules / small slot numbers / -1, PDTA cells replaced by valid cells; thorough additionally enumerates every CVAL of "
-    "every fixture x 6 boundary values. Oracle: Y = save(load(X)); save(load(Y_n)) == Y_n for n = 1..3 (5 thorough); snapshot before save == "
-    "after; two saves of one object are identical. Files that do not load are outside the quantifier and counted. non-trivial = X carries an "
+    "every fixture x 6 boundary values. Oracle: Y = save(load(X)); save(load(Y_n)) == Y_n for n = 1..3 (5 thorough); snapshot and raw link tables before save == "
+    "after (for loaded and for freshly constructed objects); two saves of one object are identical. Files that do not load are outside the quantifier and counted. non-trivial = X carries an "
     "out-of-range stored value, or a freed link slot, or mutated option bytes"
 )
 ASSUMPTIONS = [
@@ -68,6 +68,33 @@ def snap_any(o):
     return snapshot.snap(o)
 
 
+def raw_tables(o):
+    if type(o).__name__ != "Project":
+        return None
+    return [None if m is None else [list(m.in_links), list(m.in_link_slots), list(m.out_links), list(m.out_link_slots)] for m in o.modules]
+
+
+def constructed_purity(case):
+    """Saving an object that was built through the API (not loaded) must not change it either."""
+    from rv.api import Synth
+
+    if case["src"] == "project":
+        o = build.make_project(case["spec"])
+    elif case["src"] == "synth":
+        o = Synth(build.make_module(case["spec"]))
+    else:
+        return
+    s0, raw0 = snap_any(o), raw_tables(o)
+    y = o.read()
+    if raw_tables(o) != raw0:
+        raise PropertyViolation("C05.save_is_pure.links", "constructed %s: saving changed the link tables in place: %r -> %r" % (case["src"], raw0, raw_tables(o)))
+    d = snapshot.diff(s0, snap_any(o))
+    if d:
+        raise PropertyViolation("C05.save_is_pure", "constructed %s: saving changed the object: %r" % (case["src"], d[:3]))
+    if o.read() != y:
+        raise PropertyViolation("C05.save_deterministic", "constructed %s: two saves of one object differ" % case["src"])
+
+
 def stability(x, cycles, what):
     """Returns 'unloadable' or 'ok'; raises PropertyViolation."""
     try:
@@ -77,7 +104,10 @@ def stability(x, cycles, what):
     if o is None:
         return "unloadable"
     s0 = snap_any(o)
+    raw0 = raw_tables(o)
     y = o.read()
+    if raw_tables(o) != raw0:
+        raise PropertyViolation("C05.save_is_pure.links", "%s: saving changed the link tables in place: %r -> %r" % (what, raw0, raw_tables(o)))
     s1 = snap_any(o)
     d = snapshot.diff(s0, s1)
     if d:
@@ -349,6 +379,8 @@ def run_shard(ctx, desc):
 
     def body(case):
         ctx.case()
+        if not case["mutations"]:
+            constructed_purity(case)
         data = bytes_of_case(case)
         r = stability(data, cycles, case["src"])
         labels = case_labels(case)
